@@ -222,4 +222,6 @@ finding("C04-leading-unary-operand-dropped", ["C04"],
         switch="cls_operand_no_leading_unary")
 LANG_FINDINGS[[f["id"] for f in LANG_FINDINGS].index("C05-width-read-input-operands-not-visited")]["property"].append("C04")
 LANG_FINDINGS[[f["id"] for f in LANG_FINDINGS].index("C05-width-read-input-operands-not-visited")]["witnesses"]["C04"] = [
-    P([10, [LET(V("A"), N(40))]], [20, [["dev", "WIDTH", {"a": FN("INT", V("A"))}]]])]
+    P([10, [LET(V("A"), N(40))]], [20, [["dev", "WIDTH", {"a": FN("INT", V("A"))}]]]),
+    P([10, [LET(V("A"), N(40))]], [20, [["dev", "WIDTH", {"a": B("+", N(40), ["arr", "Q", [N(0)]])}]]])]
+LANG_FINDINGS[[f["id"] for f in LANG_FINDINGS].index("C05-width-read-input-operands-not-visited")]["what"] += "; an array that occurs only in a WIDTH operand is never declared"
